@@ -932,6 +932,91 @@ def r13(k: Kit) -> None:
                       g.describe_path(w) if w else None)
     rep.floor('C10.R13', 'installable parser handlers', total, 13)
 
+
+# ------------------------------------------------------------------ R15
+
+def r15(k: Kit) -> None:
+    from ..absint import evaluate, Obj, NotEvaluable
+    rep = k.rep
+    idx = k.idx
+    rep.rule('C10.R15', 'SOCKS4 NUL-terminated fields: data_received '
+             'evaluated on unterminated input closes the connection once '
+             'more than 255 bytes are buffered without a NUL (no unbounded '
+             'buffering / quadratic rescans); the PKCS#12 key derivation, '
+             'which divides by len(salt), is reached only past a non-empty '
+             'salt test')
+    fi = k.func('socks.SSHSOCKSForwarder.data_received')
+    body = [st for st in fi.node.body if not (
+        isinstance(st, ast.Expr) and isinstance(st.value, ast.Constant))]
+    bad = None
+    n = 0
+    for buf, chunk, want in ((b'', b'A' * 300, 'close'),
+                             (b'A' * 200, b'B' * 100, 'close'),
+                             (b'', b'A' * 10, 'wait'),
+                             (b'A' * 250, b'BBBBB', 'wait'),
+                             (b'', b'user\0', 'handler'),
+                             (b'us', b'er\0rest', 'handler')):
+        n += 1
+        st = {'closed': False}
+
+        def on_call(nm, args, env, st=st):
+            if nm == 'self._recv_handler':
+                env['self._recv_handler'] = None
+                return None
+            if nm == 'self.close':
+                st['closed'] = True
+                env['self._recv_handler'] = None
+                return None
+            return Obj('x')
+        try:
+            o = evaluate(idx, fi.module, body,
+                         {'self._recv_handler': Obj('H'),
+                          'self._bytes_needed': -1, 'self._inpbuf': buf},
+                         {'data': chunk, 'datatype': None}, on_call)
+        except NotEvaluable as exc:
+            rep.error('C10.R15', key(fi, 'not-evaluable'), str(exc))
+            return
+        handled = [a for nm, a in o.calls if nm == 'self._recv_handler']
+        got = 'close' if st['closed'] else 'handler' if handled else 'wait'
+        if got != want and bad is None:
+            bad = (f'{len(buf)} bytes buffered + {len(chunk)} received'
+                   f'{" (no NUL)" if want != "handler" else ""}: {got}, '
+                   f'expected {want}' +
+                   (' - an endless user id / host name is buffered without '
+                    'limit and rescanned on every chunk' if want == 'close'
+                    else ''))
+    rep.count('eval.socks4_field_states', n)
+    rep.check(bad is None, 'C10.R15', key(fi, 'unterminated field bounded'),
+              f'{n} inputs', str(bad), fi.loc(fi.node))
+    m = 0
+    for f in idx.iter_funcs(['pbe']):
+        g = k.cfg(f)
+        for nd, c in k.calls_named(f, '_pbkdf_p12'):
+            if len(c.args) < 3:
+                continue
+            m += 1
+            salt = c.args[2]
+            names = {dotted(salt), 'params[0]'}
+
+            def nonempty(x: Node, names=names) -> Optional[bool]:
+                if x.kind != 'atom' or x.ast is None:
+                    return None
+                if (dotted(x.ast) or norm(x.ast)) in names:
+                    return True
+                return None
+            w = g.guarded_by(nd.id, nonempty)
+            rep.check(w is None, 'C10.R15',
+                      key(f, 'PKCS#12 KDF needs a non-empty salt'),
+                      'the call is reached only on the non-empty edge of a '
+                      'test of the salt',
+                      f'{f.qual} calls _pbkdf_p12 with a salt that was never '
+                      'tested for emptiness: an encrypted PKCS#8 key naming '
+                      'a PKCS#12 PBE scheme with a zero-length salt makes '
+                      'import_private_key raise ZeroDivisionError instead of '
+                      'KeyImportError', k.loc(f, nd),
+                      g.describe_path(w) if w else None)
+    rep.floor('C10.R15', 'PKCS#12 KDF call sites', m, 1)
+
 # ------------------------------------------------------------------ R12
 
 def r12(k: Kit) -> None:
@@ -1011,6 +1096,7 @@ def run(idx, rep, tier):
     r11(k)
     r12(k)
     r13(k)
+    r15(k)
     from .c12 import copy_loop_progress
     rep.rule('C10.R14', 'copy-data: the server\'s copy loop reaches its '
              'test again only after a read that returned data (= clause of '
